@@ -168,8 +168,10 @@ static void run_class(const ClassAdapter<T>& A, int depth) {
         }
         bool eq = false; try { eq = A.equal(*x, *y); } catch (...) {}
         if (!eq) { if (violcap().admit(A.name + "|lv|" + A.muts[m].name)) report_violation(site, "roundtrip:lookahead-value!=", "none", inj2, A.print(*y).substr(0, 300), A.print(*x).substr(0, 300)); continue; }
-        bool ok2 = false; try { ok2 = A.ok(*y); } catch (...) {}
-        if (ok1 && !ok2 && violcap().admit(A.name + "|lo|" + A.muts[m].name)) report_violation(site, "roundtrip:lookahead-not-OK", "none", inj2, "OK() false after the operation on the loaded object", "OK() true as on the original");
+        // both objects are judged in the same situation: after the operation AND after the comparison above
+        // (equality may close / minimize both sides; with inexact coefficients OK() can fail after that on both)
+        bool ok2 = false, ok1b = false; try { ok2 = A.ok(*y); ok1b = A.ok(*x); } catch (...) {}
+        if (ok1 && ok1b && !ok2 && violcap().admit(A.name + "|lo|" + A.muts[m].name)) report_violation(site, "roundtrip:lookahead-not-OK", "none", inj2, "OK() false after the operation on the loaded object", "OK() true as on the original");
       }
     }
     count(CNT_STATES);
@@ -261,6 +263,13 @@ int main(int argc, char** argv) {
   run_class(xbox_adapter<PPL::Double_Box>("Double_Box"), depth);
   run_class(xbox_adapter<PPL::Float_Box>("Float_Box"), depth);
   run_class(xbox_adapter<PPL::Int8_Box>("Int8_Box"), depth);
+#elif VF_GROUP == 12
+  run_class(xshape_adapter<PPL::BD_Shape<float> >("BD_Shape<float>"), depth);
+  run_class(xshape_adapter<PPL::BD_Shape<int8_t> >("BD_Shape<int8_t>"), depth);
+  run_class(xshape_adapter<PPL::BD_Shape<mpz_class> >("BD_Shape<mpz_class>"), depth);
+#elif VF_GROUP == 13
+  run_class(xshape_adapter<PPL::Octagonal_Shape<double> >("Octagonal_Shape<double>"), depth);
+  run_class(xshape_adapter<PPL::Octagonal_Shape<int16_t> >("Octagonal_Shape<int16_t>"), depth);
 #else
 #error "VF_GROUP not set"
 #endif
